@@ -3089,8 +3089,10 @@ PROPS = {
     'C15': {
         'run': run_C15,
         'pinned': ['C15_kernel_sum_R', 'C15_kernels_agree_R', 'C15_read_set', 'C15_kernel_error_model', 'C15_kernel_error_f64',
-                   'C15_kernel_error_f32', 'C15_kernels_close_f64', 'C15_kernels_close_f32', 'C15_finite_example'],
-        'unproved': ['overflow: the floating-point bound (C15_kernels_close_f64/_f32) assumes finite kernel results; results that overflow are '
+                   'C15_kernel_error_f32', 'C15_kernels_close_f64', 'C15_kernels_close_f32', 'C15_kernel_finite_unit_f64', 'C15_kernel_finite_unit_f32',
+                   'C15_finite_example'],
+        'unproved': ['overflow: the floating-point bound (C15_kernels_close_f64/_f32) assumes finite kernel results; finiteness is proved from an '
+                     'a-priori magnitude bound (products of magnitude <= 1, up to 32768 taps: C15_kernel_finite_unit_*); beyond it results are '
                      'compared bit for bit on every run, not bounded by a theorem',
                      'NEON kernel: not compiled on x86-64, not modelled', 'CPU dispatch order: observed (the dispatched interpolator is '
                      'compared with the explicitly constructed ones), not modelled'],
